@@ -346,8 +346,31 @@ def h_layout(ctx):
     return "rows=%d" % len(MM.ROWS)
 
 
+def h_decode_pair(ctx, first, second):
+    """Two different value classes decoded one after the other in one process, the second one from bytes that may
+    equal the first one's: nothing remembered from one class's decoding may leak into another's."""
+    with ctx.namespace("p."):
+        h_decode(ctx, first)
+    return h_decode(ctx, second)
+
+
+def _pairs():
+    fixed = [(i, r) for i, r in enumerate(MM.ROWS) if r[7] in ("fixed", "num", "temp") and r[5] <= 2]
+    out = []
+    for n, (i, r) in enumerate(fixed):
+        for j, q in fixed[n + 1:] + fixed[:n]:
+            if q[5] == r[5] and (q[7], q[8]) != (r[7], r[8]):
+                out.append((i, j))
+                break
+    return out
+
+
 def cases(tier):
     cs = [Case("layout", h_layout, {})]
+    for n, (i, j) in enumerate(_pairs()):
+        if tier != "quick" or n % 3 == 0:
+            cs.append(Case("decode-after-%s-%s" % (MM.ROWS[i][2], MM.ROWS[j][2]), h_decode_pair,
+                           {"first": i, "second": j}, width=128))
     for i, (row, cls, flags, signed) in enumerate(SYN):
         cs.append(Case("decode-synthetic-%s" % row[2], h_decode, {"idx": i, "synthetic": True}, width=128))
         cs.append(Case("inverse-synthetic-%s" % row[2], h_inverse, {"idx": i, "strlen": 0, "synthetic": True},
